@@ -256,6 +256,11 @@ func (p *CPU) execInst(bus *device.Bus, as abi.As, arg *abi.AsRawArgument) error
 		}
 		p.RegX[arg.Rd] = RVUInt(value)
 	case riscv.ASD:
+		addr := p.RegX[arg.Rs1] + RVUInt(arg.Imm)
+		value := p.RegX[arg.Rs2]
+		if err := bus.Write(uint64(addr), 8, uint64(value)); err != nil {
+			return err
+		}
 	case riscv.AADDIW:
 		p.RegX[arg.Rd] = RVUInt(int32(p.RegX[arg.Rs1] + RVUInt(arg.Imm)))
 	case riscv.ASLLIW:
